@@ -26,6 +26,7 @@ XDims == OrderedSubsetsUpTo(BaseSet, MaxDims) \ {<<>>}
 
 \* selectors available for a letter; reads never use lists
 ListsOf(l) == {<<2, 1>>, <<1>>} \cup (IF LenOfBase(l) = 3 THEN {<<3, 1>>} ELSE {}) \cup (IF LenOfBase(l) = 5 THEN {<<2, 4, 3, 5>>, <<5, 1, 2>>} ELSE {})
+              \cup (IF LenOfBase(l) = 7 THEN {<<7, 1, 4>>, <<2, 3, 4, 5, 6>>, <<7, 5, 3, 1, 2, 4>>} ELSE {})
 SelectorsOf(l, withLists) ==
          {One(i) : i \in ItemSet(l)}
     \cup {SubSel(d) : d \in SubsOf(l)}
